@@ -5,11 +5,12 @@ import asyncio
 import collections
 import os
 import shutil
+import struct
 import tempfile
 
 from hypothesis import strategies as st
 
-from vfw import simworld, xfer
+from vfw import simworld, wire_ref, xfer
 from vfw.runner import CaseResult
 
 PROPERTY = 'C14'
@@ -23,7 +24,8 @@ RULE = (
     "pp (server sends PotentialParents; the client connects out: candidates), announce (a candidate or the parent "
     "sends DistributedBranchLevel/Root in 5 forms: level+root, root+level, level 0 alone, level alone, root alone; "
     "the first complete announcement without a parent makes the parent and the client drops the other candidates), "
-    "join (a peer connects in with type D and PeerInit, or -- indirect -- lets the server relay ConnectToPeer of "
+    "join (a peer connects in with type D and PeerInit -- to the plain port, or to the obfuscated listening port with "
+    "an obfuscated PeerInit and plain frames afterwards --, or -- indirect -- lets the server relay ConnectToPeer of "
     "type D so that the client connects to the peer and sends PeerPierceFirewall: child either way, or candidate if "
     "its name is in the potential-parent cache), leave "
     "(a child, parent or candidate closes by EOF or reset), reset (server sends ResetDistributed: the client closes "
@@ -35,11 +37,14 @@ RULE = (
     "shared file is deleted, or the sub-directory holding it is replaced by a plain file so that reading its size "
     "fails with NotADirectoryError; no rescan), and search requests (carrier ServerSearchRequest from the server while there is no "
     "parent, DistributedSearchRequest or legacy DistributedServerSearchRequest from the parent otherwise; user in "
-    "{friend asker, stranger asker, tree member, own username, user unknown to the server}; arbitrary uint32 "
-    "ticket; query of 1..3 terms: present/absent words, -exclude, *wildcard, upper case, word prefixes), optionally "
+    "{friend asker, stranger asker, tree member, own username, user unknown to the server}, incl. an asker and an "
+    "unknown user whose names hold 2-, 3- and 4-byte UTF-8 characters; arbitrary uint32 ticket; query of 1..3 "
+    "terms: present/absent words incl. non-ASCII ones (file names too), -exclude, *wildcard, upper case, word "
+    "prefixes; the request bytes are built by the pinned reference codec vfw/wire_ref), optionally "
     "glued to the previous request (same instant, same connection). Half of the shards never use the own username. "
     "Every operation is followed by 0.5 s of virtual time (quiescence). Oracle per request group, from the frames "
-    "seen by every scripted connection: each current child connection received exactly one "
+    "seen by every scripted connection (for joined peers: the bytes the client wrote, framed as plain frames and "
+    "decoded by the reference codec, not by the library): each current child connection received exactly one "
     "DistributedSearchRequest per request with the same username, ticket and query; parent, candidates, closed connections and the server received no search message; a request carrying "
     "the own username is neither forwarded nor answered (no PeerSearchReply received by anybody, no own address "
     "lookup); the asker received exactly one PeerSearchReply (own username, same ticket, results == visible "
@@ -81,13 +86,14 @@ BUDGET_S = {'quick': 150, 'thorough': 1500}
 
 OWN = 'me'
 TREE = ['t0', 't1', 't2', 't3', 't4']
-ASKERS = ['alice', 'bob']
-USERS = ['alice', 'bob', 't0', 't1', OWN, 'ghost']        # 'ghost' is not known to the server
+ASKERS = ['alice', 'bob', 'bj\u00f6rk']              # the third asker has a 2-byte UTF-8 character in its name
+UNKNOWN = ['ghost', '\u7247\u4eee\u540d\U0001f3a7']        # not known to the server; the second name has 3- and 4-byte characters
+USERS = ['alice', 'bob', 't0', 't1', OWN, UNKNOWN[0], ASKERS[2], UNKNOWN[1]]
 FRIEND_POOL = ['alice', 'bob', 't0', 't1']
 ROOTS = ['rootA', 'rootB', 't4']
-WORDS = ['alpha', 'beta', 'gamma', 'delta', 'rock', 'jazz', 'live', '2020']
+WORDS = ['alpha', 'beta', 'gamma', 'delta', 'rock', 'jazz', 'live', '2020', 'bj\u00f6rk', '\u65e5\u672c\u8a9e']
 ABSENT = ['omega', 'zeta']
-VOCAB = WORDS + ABSENT
+VOCAB = WORDS[:8] + ABSENT + WORDS[8:] + ['dj\U0001f3a7']     # old indices keep their meaning; the last word has a 4-byte character
 SUBDIRS = ['', 'live', os.path.join('live', '2020')]
 SEPS = [' ', '_', ' - ']
 EXTS = ['.mp3', '.flac', '.txt']
@@ -121,7 +127,7 @@ def _query(draw):
 
 
 def _search(avoid_own=False):
-    users = [0, 0, 1, 1, 1, 2, 3, 5] if avoid_own else [0, 0, 1, 1, 1, 2, 3, 4, 4, 5]
+    users = [0, 0, 1, 1, 1, 2, 3, 5, 6, 6, 7] if avoid_own else [0, 0, 1, 1, 1, 2, 3, 4, 4, 5, 6, 6, 7]
     return st.fixed_dictionaries({
         'op': st.just('search'),
         'carrier': st.integers(0, 2),
@@ -132,9 +138,10 @@ def _search(avoid_own=False):
     })
 
 
-# how a peer joins: it connects to the client's port and sends PeerInit ('direct'), or it lets the server relay a
-# ConnectToPeer of type D and the client connects to the peer and sends PeerPierceFirewall ('indirect')
-_VIA = st.sampled_from(['direct', 'indirect', 'indirect'])
+# how a peer joins: it connects to the client's port and sends PeerInit ('direct'; 'obfuscated': to the obfuscated
+# port with an obfuscated PeerInit), or it lets the server relay a ConnectToPeer of type D and the client connects to
+# the peer and sends PeerPierceFirewall ('indirect')
+_VIA = st.sampled_from(['direct', 'indirect', 'indirect', 'obfuscated', 'obfuscated'])
 
 
 def _change():
@@ -171,7 +178,7 @@ def case_strategy(draw, avoid_own=False):
     with_parent = draw(st.sampled_from([True, True, False]))
     n_kids = draw(st.integers(0, 3))
     kids_first = draw(st.booleans())
-    kid_ops = [{'op': 'join', 'peer': i, 'via': draw(st.sampled_from(['direct', 'direct', 'indirect']))} for i in range(n_kids)]
+    kid_ops = [{'op': 'join', 'peer': i, 'via': draw(st.sampled_from(['direct', 'direct', 'indirect', 'obfuscated']))} for i in range(n_kids)]
     if kids_first:
         ops += kid_ops
     if with_parent:
@@ -180,7 +187,7 @@ def case_strategy(draw, avoid_own=False):
         ops.append({'op': 'announce', 'which': 0, 'form': draw(st.sampled_from([0, 0, 1, 2])),
                     'level': draw(st.integers(1, 4)), 'root': draw(st.integers(0, 2))})
         if extra and draw(st.booleans()):
-            ops.append({'op': 'join', 'peer': 3, 'via': draw(st.sampled_from(['direct', 'direct', 'indirect']))})   # listed potential parent joins: candidate
+            ops.append({'op': 'join', 'peer': 3, 'via': draw(st.sampled_from(['direct', 'direct', 'indirect', 'obfuscated']))})   # listed potential parent joins: candidate
     elif draw(st.booleans()):
         ops.append({'op': 'pp', 'peers': [4, 3][:draw(st.integers(1, 2))]})   # silent candidates, client stays root
     if not kids_first:
@@ -190,7 +197,7 @@ def case_strategy(draw, avoid_own=False):
         ops.append(draw(_search(avoid_own)))
         if draw(st.booleans()):
             ops.append(draw(_search(avoid_own)))
-        motif = draw(st.integers(0, 7))
+        motif = draw(st.integers(0, 9))
         if motif <= 1:
             # a child joins while a reset still waits for a slowly closing child, then a request
             ops.append({'op': 'reset', 'slow': draw(st.sampled_from([1, 2, 2, 3])), 'stall': draw(st.integers(0, 3)),
@@ -205,6 +212,13 @@ def case_strategy(draw, avoid_own=False):
             if users:
                 nxt['user'] = draw(st.sampled_from(users))
             ops.append(nxt)
+        elif motif in (4, 5):
+            # a child leaves in the very instant of a request (right before it / right behind it)
+            leave = {'op': 'leave', 'which': draw(st.integers(0, 3)), 'how': draw(st.sampled_from(['eof', 'reset'])),
+                     'glue': draw(st.sampled_from(['before', 'after']))}
+            nxt = draw(_search(avoid_own))
+            nxt['glue'] = False
+            ops += [leave, nxt] if leave['glue'] == 'before' else [nxt, leave]
         elif motif == 3:
             # a matching file becomes unreadable after the scan (its directory is replaced by a plain file, or it
             # is deleted), then a request for one of its words
@@ -272,7 +286,7 @@ def _sanitise_inner(case):
                         'ticket': _int(o.get('ticket'), 0, 2 ** 32 - 1), 'q': q, 'glue': bool(o.get('glue'))})
         elif kind == 'join':
             ops.append({'op': 'join', 'peer': _int(o.get('peer'), 0, 10 ** 6),
-                        'via': 'indirect' if o.get('via') == 'indirect' else 'direct'})
+                        'via': o.get('via') if o.get('via') in ('indirect', 'obfuscated') else 'direct'})
         elif kind == 'leave':
             ops.append({'op': 'leave', 'glue': o.get('glue') if o.get('glue') in ('before', 'after') else 'none',
                         'which': _int(o.get('which'), 0, 10 ** 6),
@@ -324,7 +338,7 @@ def _file_relpath(f):
 # harness-side model of one scripted distributed connection
 
 class _Conn:
-    __slots__ = ('link', 'peer', 'role', 'level', 'root', 'seen', 'incoming')
+    __slots__ = ('link', 'peer', 'role', 'level', 'root', 'seen', 'incoming', 'raw_pos')
 
     def __init__(self, link, peer, role, incoming):
         self.link = link
@@ -334,6 +348,7 @@ class _Conn:
         self.root = None
         self.seen = 0             # number of messages of the link already attributed to earlier groups
         self.incoming = incoming  # the peer connected to the client
+        self.raw_pos = 0          # bytes of the captured client->peer stream already framed (see _capture)
 
     @property
     def open(self):
@@ -362,7 +377,71 @@ def _slow_close(link, delay):
     tr.close = close
 
 
+class _Obs:
+    """A frame the client wrote to a scripted connection, decoded by the pinned reference codec (vfw/wire_ref)."""
+    __slots__ = ('cls', 'fields')
+
+    def __init__(self, cls, fields):
+        self.cls = cls
+        self.fields = fields
+
+    def __repr__(self):
+        return f'{self.cls}{self.fields!r}'
+
+
+_REF_KEYS = {'server': 'server:ServerSearchRequest:Response',
+             'distributed': 'distributed:DistributedSearchRequest:Request',
+             'legacy': 'distributed:DistributedServerSearchRequest:Request'}
+
+
+def _request_frame(r):
+    """The request as bytes, built by the reference codec (independent of the library's serializer)."""
+    values = {'unknown': 0x31, 'username': r['user'], 'ticket': r['ticket'], 'query': r['query']}
+    if r['carrier'] != 'distributed':
+        values['distributed_code'] = 3
+    return wire_ref.encode(_REF_KEYS[r['carrier']], values)
+
+
+def _capture(link):
+    """Record every byte the client writes on this scripted connection (the in-memory TCP is lossless and ordered,
+    so this is what the peer receives); framed and decoded later by the reference codec as PLAIN frames."""
+    link.c14_raw = bytearray()
+    own_side = link.ep.index
+
+    def tap(_link, sender, data):
+        if sender != own_side:
+            link.c14_raw.extend(data)
+    link.ep.link.tap = tap
+
+
+def _ref_frames(k):
+    raw = getattr(k.link, 'c14_raw', None)
+    out = []
+    while len(raw) - k.raw_pos >= 4:
+        (n,) = struct.unpack_from('<I', raw, k.raw_pos)
+        if len(raw) - k.raw_pos < 4 + n:
+            break           # incomplete (or a garbage length prefix: nothing readable follows)
+        frame = bytes(raw[k.raw_pos:k.raw_pos + 4 + n])
+        k.raw_pos += 4 + n
+        key = wire_ref.dispatch('distributed', 'Request', frame)
+        if key is None:
+            out.append(_Obs('undecodable', None))
+            continue
+        try:
+            values = wire_ref.decode(key, frame)
+        except Exception:
+            out.append(_Obs('undecodable', None))
+            continue
+        fields = None
+        if all(x in values for x in ('username', 'ticket', 'query')):
+            fields = (values['username'], values['ticket'], values['query'])
+        out.append(_Obs(key.split(':')[1] + '.Request', fields))
+    return out
+
+
 def _search_fields(msg):
+    if isinstance(msg, _Obs):
+        return msg.fields
     try:
         return (msg.username, msg.ticket, msg.query)
     except AttributeError:
@@ -370,6 +449,8 @@ def _search_fields(msg):
 
 
 def _clsname(msg):
+    if isinstance(msg, _Obs):
+        return msg.cls
     return type(msg).__qualname__ if not isinstance(msg, tuple) else 'undecodable'
 
 
@@ -423,6 +504,7 @@ def run_case(case) -> CaseResult:
                 if isinstance(link.init, M.PeerPierceFirewall.Request) and link.init.ticket in pierce_tickets:
                     link.typ = 'D'
                     pierce_tickets[link.init.ticket] = link
+                    _capture(link)
             for name in TREE:
                 peers[name].on_link = on_link
             client = await world.start_client(s)
@@ -501,12 +583,9 @@ def run_case(case) -> CaseResult:
                 }
                 for r in reqs:
                     if r['carrier'] == 'server':
-                        world.server.send(M.ServerSearchRequest.Response(3, 0x31, r['user'], r['ticket'], r['query']))
-                    elif r['carrier'] == 'distributed':
-                        state['parent'].link.send_msg(M.DistributedSearchRequest.Request(0x31, r['user'], r['ticket'], r['query']))
+                        world.server.send(_request_frame(r))
                     else:
-                        state['parent'].link.send_msg(
-                            M.DistributedServerSearchRequest.Request(3, 0x31, r['user'], r['ticket'], r['query']))
+                        state['parent'].link.send_msg(_request_frame(r))
                 for k, how in pending_leaves:
                     # a child leaves in the very instant the request is passed on ("after": right behind it)
                     (k.link.ep.reset if how == 'reset' else k.link.ep.close)()
@@ -538,6 +617,8 @@ def run_case(case) -> CaseResult:
                 for k in conns:
                     new = [m for _, m in k.link.messages[k.seen:]]
                     k.seen = len(k.link.messages)
+                    if getattr(k.link, 'c14_raw', None) is not None:
+                        new = _ref_frames(k)      # independent framing + decoding of what the client wrote
                     obs['links'].append((k.peer, k.role, new))
                 for name in sorted(peers):
                     fresh = []
@@ -567,6 +648,8 @@ def run_case(case) -> CaseResult:
                 kind = o['op']
                 if kind == 'leave' and o.get('glue') in ('before', 'after'):
                     nxt = c['ops'][oi + 1] if oi + 1 < len(c['ops']) else None
+                    if o['glue'] == 'before' and nxt is not None and nxt['op'] == 'search' and pending:
+                        await flush()     # earlier requests are evaluated first; the leave belongs to the next one
                     kids = [k for k in conns if k.open and k.role == 'child']
                     if kids and ((o['glue'] == 'before' and nxt is not None and nxt['op'] == 'search' and not pending) or
                                  (o['glue'] == 'after' and pending)):
@@ -613,8 +696,14 @@ def run_case(case) -> CaseResult:
                         conns.append(_Conn(link, name, role, True))
                         notes.append('indirect-join:' + role)
                     else:
-                        link = peers[name].connect('D')
+                        # 'obfuscated': the peer connects to the obfuscated listening port; only its PeerInit is
+                        # obfuscated, everything after it on a distributed connection is plain in both directions
+                        obfs = o.get('via') == 'obfuscated'
+                        link = peers[name].connect('D', obfuscated=obfs)
+                        _capture(link)
                         conns.append(_Conn(link, name, role, True))
+                        if obfs:
+                            notes.append('obfuscated-port-join:' + role)
                         await quiet()
                 elif kind == 'leave':
                     live = [k for k in conns if k.open]
@@ -709,6 +798,7 @@ def run_case(case) -> CaseResult:
                             break
                         name = free[i % len(free)]
                         link = peers[name].connect('D')
+                        _capture(link)
                         conns.append(_Conn(link, name, 'child', True))
                         if delay > 0.05 * (step + 1):
                             notes.append('child-joins-during-reset')
@@ -735,7 +825,7 @@ def run_case(case) -> CaseResult:
 def _user_class(user):
     if user == OWN:
         return 'own'
-    if user == 'ghost':
+    if user in UNKNOWN:
         return 'unknown'
     return 'asker' if user in ASKERS else 'tree-member'
 
